@@ -458,11 +458,20 @@ def generate(rng):
     src += rng.choice(["from a.sub import sub\n", "sub = 3\n",
                        "from a.sub import sub as _s\nsub = [_s]\n"])
   elif chain:
-    src0, ex0 = proggen.gen_module(rng, "a0", (), errors=False,
-                                   size=rng.randrange(3, 8))
+    up0 = ()
+    al = None
+    if rng.random() < 0.35:
+      al = rng.choice([None, "z", "z"])   # the same alias name on two levels
+      # three levels: a00 <- a0 <- a
+      src00, ex00 = proggen.gen_module(rng, "a00", (), errors=False,
+                                       size=rng.randrange(3, 7))
+      progs["a00"] = src00
+      up0 = [("a00", ex00)]
+    src0, ex0 = proggen.gen_module(rng, "a0", up0, errors=False,
+                                   size=rng.randrange(3, 8), alias=al)
     progs["a0"] = src0
     src, ex = proggen.gen_module(rng, "a", [("a0", ex0)], errors=False,
-                                 size=rng.randrange(4, 14))
+                                 size=rng.randrange(4, 14), alias=al)
   else:
     src, ex = proggen.gen_module(rng, "a", (), errors=rng.random() < 0.2,
                                  size=rng.randrange(4, 16))
@@ -498,6 +507,8 @@ def evaluate(trace, detail=False):
   for name, src in progs.items():
     fs.put(layout[name][1], src)
   order = ["a0", "a"] if trace["chain"] else ["a"]
+  if "a00" in progs:
+    order = ["a00"] + order
   text_items, pk_items = [], []
   for name in order:
     modname, srcp, textp, pkp, mapkey = layout[name]
@@ -690,7 +701,7 @@ def shrink(trace, v0, budget=60):
     t = dict(cur, opts={"quick": True})
     if still(t):
       cur = t
-  for name in ("a", "a0"):
+  for name in ("a", "a0", "a00"):
     if name not in cur["programs"]:
       continue
     chunks = _chunks(cur["programs"][name])
